@@ -358,9 +358,13 @@ def check_call(fq, args, kwargs=None, contract=None, fn=None):
             same = (again == result) and type(again) is type(result)
         except Exception as ex:  # noqa
             again, same = "raised %r" % (ex,), False
+        fresh_claimed = any("is_fresh(result" in e for _n, e in named(c.get("ensures"), "ensures"))
         if not same:
             failures.append(("frame/same-arguments-same-result", "first call returned %s, the same call again %s"
                              % (short(result), short(again))))
+        elif fresh_claimed and again is result and not isinstance(result, (int, float, str, bytes, bool, tuple, type(None))):
+            failures.append(("post/fresh-result", "the contract promises a result allocated by the call, but two calls "
+                                                  "returned the same object %s" % short(result)))
         else:
             # ... and however the arguments are passed (a wrapper that keys a memo on the positional tuple shows here)
             try:
